@@ -20,6 +20,11 @@ ASSUMPTIONS = [
 
 PROPS = {
 
+    "C12": {"rule": "histories of 1-8 init / update operations over 1-4 instruction discriminators (two sharing a 7-byte prefix) with arbitrary 35-byte configs, list lengths 0..8 (update to longer / shorter / equal / empty), "
+            "accounts of the advertised total size -1 / 0 / +1 / +40 / random; after every operation every list is reloaded (unpack_with_tlv_state) and compared with a map oracle; failed operations must leave the bytes unchanged; "
+            "exact size and one-byte-less for n = 0..8; malformed account bytes (mutated header, 0xfffffff0 length, trailing non-zero) through init/update/reload; non-trivial = at least one successful init/update",
+            "partial": [], "masks": [], "assumptions": ["type tags are non-zero; lists shorter than 10^8 entries in the init/update theorems (any real account is < 10 MiB)"]},
+
     "C05": {"rule": 'worlds of 3-8 keys, a program id, instruction data of 0..300 bytes, 0-6 accounts with data of 0..300 bytes (or none); configs from the real constructors: fixed keys, PDAs over 0-4 seeds (literals, instruction-data slices incl. 0/32/33 bytes and ranges ending at / one past the end, account keys, account-data slices; indices in range, one past, random), 15 and 16 account-key seeds, external-program PDAs (index in / out of range), key-from-data configs at offsets len-32 / len-31; plus raw 35-byte configs over all kind bytes (3, 4, 127, 128, 129, 255) and flag bytes {0,1,2,255}' + "; every config is resolved by the real ExtraAccountMeta::resolve and by an independent resolver written from the property text (PDAs recomputed with Pubkey::try_find_program_address); "
             "the Gallina PDA derivation (SHA-256 + Ed25519 point test) is compared with solana-pubkey on 60 seed sets and 60 random 32-byte strings per run; constructors on 2000 seed lists; non-trivial = resolved successfully",
             "partial": ["PDA hash / curve test equal the crates': the executable oracle Lib/Pda.v is validated per run, the theorems quantify over any find_pda"], "masks": [],
